@@ -200,184 +200,184 @@ var dimOps = []dimOp{
 	{name: "VaddV", args: map[string][]string{"r": {"n"}, "a": {"n"}, "b": {"n"}}, call: func(k kind, d map[string][]int) (interface{}, func() error) {
 		v := vecs(k, d, "r", "a", "b")
 		return v[0], func() error {
-		v[0].VaddV(v[1], v[2])
-		return nil
+			v[0].VaddV(v[1], v[2])
+			return nil
 		}
 	}},
 	{name: "VsubV", args: map[string][]string{"r": {"n"}, "a": {"n"}, "b": {"n"}}, call: func(k kind, d map[string][]int) (interface{}, func() error) {
 		v := vecs(k, d, "r", "a", "b")
 		return v[0], func() error {
-		v[0].VsubV(v[1], v[2])
-		return nil
+			v[0].VsubV(v[1], v[2])
+			return nil
 		}
 	}},
 	{name: "VmulV", args: map[string][]string{"r": {"n"}, "a": {"n"}, "b": {"n"}}, call: func(k kind, d map[string][]int) (interface{}, func() error) {
 		v := vecs(k, d, "r", "a", "b")
 		return v[0], func() error {
-		v[0].VmulV(v[1], v[2])
-		return nil
+			v[0].VmulV(v[1], v[2])
+			return nil
 		}
 	}},
 	{name: "VdivV", args: map[string][]string{"r": {"n"}, "a": {"n"}, "b": {"n"}}, call: func(k kind, d map[string][]int) (interface{}, func() error) {
 		v := vecs(k, d, "r", "a", "b")
 		return v[0], func() error {
-		v[0].VdivV(v[1], v[2])
-		return nil
+			v[0].VdivV(v[1], v[2])
+			return nil
 		}
 	}},
 	{name: "VaddS", args: map[string][]string{"r": {"n"}, "a": {"n"}}, call: func(k kind, d map[string][]int) (interface{}, func() error) {
 		v := vecs(k, d, "r", "a")
 		return v[0], func() error {
-		v[0].VaddS(v[1], ConstFloat64(2))
-		return nil
+			v[0].VaddS(v[1], ConstFloat64(2))
+			return nil
 		}
 	}},
 	{name: "VmulS", args: map[string][]string{"r": {"n"}, "a": {"n"}}, call: func(k kind, d map[string][]int) (interface{}, func() error) {
 		v := vecs(k, d, "r", "a")
 		return v[0], func() error {
-		v[0].VmulS(v[1], ConstFloat64(2))
-		return nil
+			v[0].VmulS(v[1], ConstFloat64(2))
+			return nil
 		}
 	}},
 	{name: "Vector.Set", args: map[string][]string{"r": {"n"}, "a": {"n"}}, call: func(k kind, d map[string][]int) (interface{}, func() error) {
 		v := vecs(k, d, "r", "a")
 		return v[0], func() error {
-		v[0].Set(v[1])
-		return nil
+			v[0].Set(v[1])
+			return nil
 		}
 	}},
 	{name: "VdotV", args: map[string][]string{"a": {"n"}, "b": {"n"}}, call: func(k kind, d map[string][]int) (interface{}, func() error) {
 		v := vecs(k, d, "a", "b")
 		return nil, func() error {
-		NullScalar(k.st.T).VdotV(v[0], v[1])
-		return nil
+			NullScalar(k.st.T).VdotV(v[0], v[1])
+			return nil
 		}
 	}},
 	{name: "MdotV", args: map[string][]string{"r": {"n"}, "a": {"n", "m"}, "b": {"m"}}, call: func(k kind, d map[string][]int) (interface{}, func() error) {
 		v := vecs(k, d, "r", "b")
 		m := mats(k, d, "a")
 		return v[0], func() error {
-		v[0].MdotV(m[0], v[1])
-		return nil
+			v[0].MdotV(m[0], v[1])
+			return nil
 		}
 	}},
 	{name: "VdotM", args: map[string][]string{"r": {"m"}, "a": {"n"}, "b": {"n", "m"}}, call: func(k kind, d map[string][]int) (interface{}, func() error) {
 		v := vecs(k, d, "r", "a")
 		m := mats(k, d, "b")
 		return v[0], func() error {
-		v[0].VdotM(v[1], m[0])
-		return nil
+			v[0].VdotM(v[1], m[0])
+			return nil
 		}
 	}},
 	{name: "MaddM", args: map[string][]string{"r": {"n", "m"}, "a": {"n", "m"}, "b": {"n", "m"}}, call: func(k kind, d map[string][]int) (interface{}, func() error) {
 		m := mats(k, d, "r", "a", "b")
 		return m[0], func() error {
-		m[0].MaddM(m[1], m[2])
-		return nil
+			m[0].MaddM(m[1], m[2])
+			return nil
 		}
 	}},
 	{name: "MsubM", args: map[string][]string{"r": {"n", "m"}, "a": {"n", "m"}, "b": {"n", "m"}}, call: func(k kind, d map[string][]int) (interface{}, func() error) {
 		m := mats(k, d, "r", "a", "b")
 		return m[0], func() error {
-		m[0].MsubM(m[1], m[2])
-		return nil
+			m[0].MsubM(m[1], m[2])
+			return nil
 		}
 	}},
 	{name: "MmulM", args: map[string][]string{"r": {"n", "m"}, "a": {"n", "m"}, "b": {"n", "m"}}, call: func(k kind, d map[string][]int) (interface{}, func() error) {
 		m := mats(k, d, "r", "a", "b")
 		return m[0], func() error {
-		m[0].MmulM(m[1], m[2])
-		return nil
+			m[0].MmulM(m[1], m[2])
+			return nil
 		}
 	}},
 	{name: "MdivM", args: map[string][]string{"r": {"n", "m"}, "a": {"n", "m"}, "b": {"n", "m"}}, call: func(k kind, d map[string][]int) (interface{}, func() error) {
 		m := mats(k, d, "r", "a", "b")
 		return m[0], func() error {
-		m[0].MdivM(m[1], m[2])
-		return nil
+			m[0].MdivM(m[1], m[2])
+			return nil
 		}
 	}},
 	{name: "MaddS", args: map[string][]string{"r": {"n", "m"}, "a": {"n", "m"}}, call: func(k kind, d map[string][]int) (interface{}, func() error) {
 		m := mats(k, d, "r", "a")
 		return m[0], func() error {
-		m[0].MaddS(m[1], ConstFloat64(2))
-		return nil
+			m[0].MaddS(m[1], ConstFloat64(2))
+			return nil
 		}
 	}},
 	{name: "MmulS", args: map[string][]string{"r": {"n", "m"}, "a": {"n", "m"}}, call: func(k kind, d map[string][]int) (interface{}, func() error) {
 		m := mats(k, d, "r", "a")
 		return m[0], func() error {
-		m[0].MmulS(m[1], ConstFloat64(2))
-		return nil
+			m[0].MmulS(m[1], ConstFloat64(2))
+			return nil
 		}
 	}},
 	{name: "Matrix.Set", args: map[string][]string{"r": {"n", "m"}, "a": {"n", "m"}}, call: func(k kind, d map[string][]int) (interface{}, func() error) {
 		m := mats(k, d, "r", "a")
 		return m[0], func() error {
-		m[0].Set(m[1])
-		return nil
+			m[0].Set(m[1])
+			return nil
 		}
 	}},
 	{name: "MdotM", args: map[string][]string{"r": {"n", "m"}, "a": {"n", "k"}, "b": {"k", "m"}}, call: func(k kind, d map[string][]int) (interface{}, func() error) {
 		m := mats(k, d, "r", "a", "b")
 		return m[0], func() error {
-		m[0].MdotM(m[1], m[2])
-		return nil
+			m[0].MdotM(m[1], m[2])
+			return nil
 		}
 	}},
 	{name: "Outer", args: map[string][]string{"r": {"n", "m"}, "a": {"n"}, "b": {"m"}}, call: func(k kind, d map[string][]int) (interface{}, func() error) {
 		m := mats(k, d, "r")
 		v := vecs(k, d, "a", "b")
 		return m[0], func() error {
-		m[0].Outer(v[0], v[1])
-		return nil
+			m[0].Outer(v[0], v[1])
+			return nil
 		}
 	}},
 	{name: "Mtrace (square)", args: map[string][]string{"a": {"n", "n"}}, call: func(k kind, d map[string][]int) (interface{}, func() error) {
 		m := mats(k, d, "a")
 		return m[0], func() error {
-		NullScalar(k.st.T).Mtrace(m[0])
-		return nil
+			NullScalar(k.st.T).Mtrace(m[0])
+			return nil
 		}
 	}},
 	{name: "SymmetricPermutation (square)", args: map[string][]string{"a": {"n", "n"}}, call: func(k kind, d map[string][]int) (interface{}, func() error) {
 		m := mats(k, d, "a")
 		pi := make([]int, d["a"][0])
 		return m[0], func() error {
-		for i := range pi {
-			pi[i] = i
-		}
-		return m[0].SymmetricPermutation(pi)
+			for i := range pi {
+				pi[i] = i
+			}
+			return m[0].SymmetricPermutation(pi)
 		}
 	}},
 	{name: "Vector.Permute", args: map[string][]string{"r": {"n"}, "pi": {"n"}}, call: func(k kind, d map[string][]int) (interface{}, func() error) {
 		v := vecs(k, d, "r")
 		pi := make([]int, d["pi"][0])
 		return v[0], func() error {
-		for i := range pi {
-			pi[i] = i
-		}
-		return v[0].Permute(pi)
+			for i := range pi {
+				pi[i] = i
+			}
+			return v[0].Permute(pi)
 		}
 	}},
 	{name: "PermuteRows", args: map[string][]string{"r": {"n", "m"}, "pi": {"n"}}, call: func(k kind, d map[string][]int) (interface{}, func() error) {
 		m := mats(k, d, "r")
 		pi := make([]int, d["pi"][0])
 		return m[0], func() error {
-		for i := range pi {
-			pi[i] = i
-		}
-		return m[0].PermuteRows(pi)
+			for i := range pi {
+				pi[i] = i
+			}
+			return m[0].PermuteRows(pi)
 		}
 	}},
 	{name: "PermuteColumns", args: map[string][]string{"r": {"n", "m"}, "pi": {"m"}}, call: func(k kind, d map[string][]int) (interface{}, func() error) {
 		m := mats(k, d, "r")
 		pi := make([]int, d["pi"][0])
 		return m[0], func() error {
-		for i := range pi {
-			pi[i] = i
-		}
-		return m[0].PermuteColumns(pi)
+			for i := range pi {
+				pi[i] = i
+			}
+			return m[0].PermuteColumns(pi)
 		}
 	}},
 }
@@ -1064,7 +1064,9 @@ func TestKF_bfgs_nan_spins(t *testing.T) {
 }
 
 func TestKF_rprop_invalid_spins(t *testing.T) {
-	h := hangs(func() { rprop.Run(nanFrom(2, "error"), NewDenseFloat64Vector([]float64{2, -2}), 0.01, []float64{1.2, 0.8}) })
+	h := hangs(func() {
+		rprop.Run(nanFrom(2, "error"), NewDenseFloat64Vector([]float64{2, -2}), 0.01, []float64{1.2, 0.8})
+	})
 	obs.KFStatus("C20/rprop-backtracking-has-no-bound", h, "")
 }
 
